@@ -327,6 +327,20 @@ let run (op : string) (a : string list) : string list =
       let (v, cls) = check_pe_flip img (n_of_string pos) (List.hd (bytes_of_hex nb)) pre (peok2 = "1") (st = "ok") (strip pre2) in
       [(if int_of_n v = 0 then "ok" else "violation"); s01 (int_of_n cls > 0);
        (match int_of_n cls with 1 -> "covered" | 2 -> "excluded" | 3 -> "layout-changing" | _ -> "not-well-formed")]
+  (* C02 / C03 *)
+  | "pe_verify", [peok; img; c; impl] ->
+      let img = bytes_of_hex img and c = cert_of_string c in
+      let (m, sound) = pe_verify_both utctime_oracle x509_oracle rsa_oracle (peok = "1") img c (impl = "true") in
+      let ms = (match int_of_n m with 2 -> "true" | 1 -> "false" | _ -> "err") in
+      let same = (ms = impl) || (ms = "err" && impl <> "true" && impl <> "false") || (ms = "false" && impl = "err") in
+      [(if not sound then "violation" else if same then "ok" else "mismatch"); ms]
+  | "pe_signed", [img; blobs; out; cmp] ->
+      let img = bytes_of_hex img and out = bytes_of_hex out in
+      let blobs = List.map bytes_of_hex (split ',' blobs) in
+      let code = int_of_n (check_signed_image utctime_oracle x509_oracle img blobs out) in
+      let msame = (cmp <> "1") || (match model_signed_bytes img blobs with Some b -> b = out | None -> false) in
+      [(if code = 100 then "skip" else if code <> 0 then "violation" else if msame then "ok" else "mismatch");
+       string_of_int code]
   | _ -> ["skip"; "unknown op " ^ op]
 
 let () =
